@@ -21,6 +21,14 @@ def disjuncts(f, node):
     return [node]
 
 
+def subkeys(k):
+    if isinstance(k, tuple):
+        yield k
+        for x in k:
+            if isinstance(x, tuple):
+                yield from subkeys(x)
+
+
 def body(chk, db, cfgname):
     r1 = chk.rule("C19-R1", "a part is skipped only if every block of its stripe is discarded (guard = disjunction of isRetained over exactly the blocks used)", "F1 dominance", 4)
     cases = [("Pomerol::GreensFunction", "Pomerol::GreensFunctionPart"), ("Pomerol::Susceptibility", "Pomerol::SusceptibilityPart")]
@@ -187,8 +195,38 @@ def body(chk, db, cfgname):
                 why = "retained is set true without the test weights(s) > Tolerance"
         else:
             why = "the weights are not scanned over [0, size)"
-    if good:
+    verdict = "ok" if good else "bad"
+    if not good and not (len(falses) == 1 and len(trues) == 1):
+        # other ways of writing the same decision
+        verdict = "unknown"
+        why = "the retention flag is computed in a form that is not analysed"
+        whole = lambda k: k == W or (k[0] == "mcall" and len(k) == 3 and k[1].split("::")[-1] in ("array", "matrix", "eval") and k[2] == W)
+        if len(asg) == 1:
+            v = asg[0][1]
+            if v[0] == "mcall" and v[1].split("::")[-1] == "any" and len(v) == 3 and v[2][0] == "op" and len(v[2]) == 4:
+                rel, a_, b_ = v[2][1], v[2][2], v[2][3]
+                if (rel in (">", ">=") and whole(a_) and b_ == tol) or (rel in ("<", "<=") and a_ == tol and whole(b_)):
+                    verdict = "ok"
+                else:
+                    verdict, why = "bad", "retained = (%s).any() is not 'some weight above the tolerance'" % f.s(f.nodes[asg[0][0]]["r"])[:60]
+            elif v[0] == "op" and len(v) == 4 and v[1] in (">", ">=", "<", "<=") and any(x[0] == "op" and x[1] in ("()", "[]") and x[2] == W for x in (v[2], v[3])) and tol in (v[2], v[3]):
+                verdict, why = "bad", "only one weight (%s) is compared with the tolerance: a block whose other states carry weight above it is discarded" % f.s(f.nodes[asg[0][0]]["r"])[:50]
+            elif v[0] == "op" and v[1] in ("&&", "||") and any(
+                    isinstance(x, tuple) and x[0] == "op" and len(x) == 4 and x[1] in (">", ">=", "<", "<=") and tol in (x[2], x[3]) and
+                    any(y[0] == "op" and y[1] in ("()", "[]") and y[2] == W for y in (x[2], x[3]) if isinstance(y, tuple)) for x in subkeys(v)):
+                verdict, why = "bad", "only one weight is compared with the tolerance (%s): a block whose other states carry weight above it is discarded" % f.s(f.nodes[asg[0][0]]["r"])[:70]
+            elif v == ("lit", 1):
+                verdict, why = "bad", "retained is only ever set to true: truncation never discards a block"
+            elif v == ("lit", 0):
+                verdict, why = "bad", "retained is only ever set to false: a block once discarded stays discarded for any later, smaller tolerance (eps = 0 does not restore the untruncated result)"
+        elif asg and all(v == ("lit", 1) for _, v in asg):
+            verdict, why = "bad", "retained is never reset to false: a block that was retained once is never discarded by a later truncation with a larger tolerance (and blocks start retained, so truncation has no effect)"
+        elif asg and all(v == ("lit", 0) for _, v in asg):
+            verdict, why = "bad", "retained is only ever set to false: a block once discarded stays discarded for any later, smaller tolerance (eps = 0 does not restore the untruncated result)"
+    if verdict == "ok":
         r2.ok(site, f.loc(), "retained = false; true iff exists s with weights(s) > (or >=) Tolerance", cfgname)
+    elif verdict == "unknown":
+        r2.unknown(site, f.loc(), why, cfgname)
     else:
         r2.bad(site, f.loc(), why, cfgname)
     g = db.fn(DM + "::truncateBlocks")
@@ -233,3 +271,4 @@ def body(chk, db, cfgname):
 
 if __name__ == "__main__":
     run_check("C19", "block truncation: structural clauses", body)
+
